@@ -26,6 +26,69 @@ CLAIMS = {
    technique="Lean 4 proof (refinement of state machines to a spec, induction over operations) + differential correspondence"),
 }
 
+PRIM_NOTE = ("Cryptographic primitives are a parameter of the model; theorems assume only the stated hypothesis structures "
+             "(Prims.Correct: AEAD round trip / length / ciphertext uniqueness, X25519 commutativity, OAEP round trip, output lengths; AEAD.NonceSep where stated), "
+             "each shown satisfiable by a toy instance. The concrete Lean primitives used to execute the model are tested against x/crypto (primtest), not verified. ")
+
+CLAIMS.update({
+ 'C01': dict(level='proof',
+   text="Lean theorem decrypt_encrypt: for EVERY tape, recipient list Encrypt accepts (any types/counts/orders/duplicates/custom stanzas), plaintext and identity list pre++id::post where "
+        "pre answers 'incorrect identity' and id opens the file key: Decrypt yields exactly the plaintext then clean EOF and consults pre.length+1 identities; per-type wrap/unwrap theorems; "
+        "x25519_identity_opens places the recipient at any list position; stream_roundtrip for all lengths. Tie: byte-exact reproduction of Go's files by the Lean reference under a recorded tape and "
+        "round trips by each listed recipient at every identity position, binary and armored.",
+   note=COMMON_NOTE + PRIM_NOTE + "For a second recipient of the SAME type the identity must answer 'incorrect' to the first one's stanza: stated as hypothesis hsep (key separation, an idealisation); unconditional for other types.",
+   technique="Lean 4 proof (composition of header canonicity, wrap/unwrap laws, STREAM round trip) + differential correspondence"),
+ 'C03': dict(level='proof',
+   text="Lean theorems: mac_gate (a reader exists only if the MAC equals HMAC over the received header bytes under the unwrapped file key), mac_covers_received_bytes (via C07 canonicity), "
+        "mac_input_injective, header_edit_reduction (acceptance of an edited header reusing the MAC yields an explicit HMAC collision), header_edit_rejected under injective-HMAC idealisation, wrong_mac_rejected. "
+        "Tie: exhaustive single-bit header flips and structural edits decrypted by each identity that opened the original.",
+   note=COMMON_NOTE + PRIM_NOTE + "The outright form assumes HMAC injective under the header key (symbolic idealisation); the reduction form is assumption-free.",
+   technique="Lean 4 proof (reduction to HMAC collision) + exhaustive bit-flip/structural-edit correspondence"),
+ 'C04': dict(level='proof',
+   text="Lean theorems for ALL files and identity lists: no_match_structure (all 'incorrect' ⇒ NoIdentityMatch with one cause per identity, no reader), reader_requires_key, other_type_incorrect, "
+        "scrypt_no_stanza_incorrect, wrong_key_reduction / wrong_key_incorrect (a wrong key yields a key only if the AEAD opens under the wrongly derived wrapping key). Tie: disjoint identity lists incl. near-miss passphrases.",
+   note=COMMON_NOTE + PRIM_NOTE + "wrong-key rejection is inherently cryptographic: given in reduction form and under an explicit idealisation.",
+   technique="Lean 4 proof + differential correspondence"),
+ 'C05': dict(level='translation_validation',
+   text="The Lean Spec layer (specFile: header grammar, four stanza constructions, HKDF labels, STREAM) is the independent implementation: under the recorded random tape it must reproduce every file age.Encrypt writes "
+        "byte for byte — all four recipient types incl. ssh-rsa (OAEP is deterministic under the tape on this toolchain), mixes, chunk-boundary sizes — and each side decrypts the other's files; "
+        "Lean theorems relate Impl-layer Encrypt to specFile (C01/C13) and tie the format constants to the source (Tie/C05).",
+   note=COMMON_NOTE + "That the Spec layer is the age v1 standard rests on reading and on the CCTV vectors; the concrete Lean primitives are cross-checked against x/crypto in setup.",
+   technique="translation validation: independent Lean reference encoder/decoder vs Go under a shared random tape"),
+ 'C10': dict(level='proof',
+   text="Lean theorems: scrypt_identity_alone (∀ stanza lists with a passphrase stanza and length ≠ 1: fatal, empty KDF log), workfactor_guard + workfactor_canonical + kdf_cost_bounded (a key is derived only for a canonical "
+        "positive decimal ≤ max; every derived factor ≤ max; ∀ argument strings, maxima, passphrases), scrypt_never_mixed_encrypt (a list with a passphrase recipient and any native recipient is refused), "
+        "two_scrypt_need_equal_labels (reduction: two passphrase recipients pass only on a collision of two 16-byte draws). Tie: exhaustive positions, work-factor string table, time budget.",
+   note=COMMON_NOTE + PRIM_NOTE + "Two passphrase recipients: refusal holds unless the CSPRNG repeats a 16-byte value (stated as reduction).",
+   technique="Lean 4 proof + differential correspondence with work observed through a time budget"),
+ 'C11': dict(level='proof',
+   text="Lean theorems: encrypt_ok_iff_labels_equal (custom recipients: Encrypt produces a header iff every wrap succeeds and all sorted label lists equal the first's), encrypt_ok_labels_equal (all recipient kinds, ⇒), "
+        "refusal_writes_nothing (any refusal returns the destination untouched), write_implies_compatible. Tie: ALL label assignments over a 3-label universe for 1..3(4) recipients with a failing wrap at each position, recording destination.",
+   note=COMMON_NOTE + "Labels compare as sorted lists (duplicates significant), as the code does; permutation-invariance of the sort is exercised by the correspondence (both orders of every set).",
+   technique="Lean 4 proof + exhaustive label-assignment correspondence"),
+})
+
+CLAIMS.update({
+ 'C02': dict(level='proof',
+   text="Lean theorems for ALL byte strings presented as payload: accepts_only_own_chunking (clean EOF ⇒ the input is the canonical encryption of the output: one accepted chunking per key), "
+        "tamper_prefix (reduction form: unless the AEAD opens a (nonce, chunk) the encryptor never sealed, the released bytes are a prefix of the plaintext and EOF is reached only with all of it), tampered_never_eof, "
+        "nonce_injective, reader_carries_over (the Reader machine equals the Spec under every read-size sequence). Tie: exhaustive bit flips / truncations of small payloads, boundary offsets of 1–3 chunk payloads, chunk sequences over variants, trailing data, writer crash prefixes.",
+   note=COMMON_NOTE + "Prefix-authenticity is inherently cryptographic: the theorem is the assumption-free reduction to an explicit AEAD forgery (DESIGN.md §4); counters below 2^88.",
+   technique="Lean 4 proof (induction over chunks; reduction to AEAD forgery) + exhaustive/boundary tamper correspondence"),
+ 'C06': dict(level='proof',
+   text="Lean theorems: tape_linear (Encrypt consumes consecutive non-overlapping tape slices: 16 file key, per-recipient draws in list order, then 16 nonce), x25519_secret_is_slice, two_files_disjoint, "
+        "secrets_independent_of_plaintext, encrypt_is_sealed_chunks + chunk_nonces_distinct + chunk_flags (counter from zero, final flag on the last chunk only, nonces pairwise distinct). "
+        "Tie/C06: which rand package each call site uses (regenerated from the source). Tie: recorded tape draw patterns, header equality with the Lean reference, tape-byte sensitivity, multi-file histories.",
+   note=COMMON_NOTE + "That crypto/rand.Reader is the OS CSPRNG is Go's guarantee, outside the model. Counters below 2^88.",
+   technique="Lean 4 proof (tape threading, nonce injectivity) + recorded-tape correspondence + regenerated rand-use facts"),
+ 'C13': dict(level='proof',
+   text="Lean theorems: no_silent_loss (∀ destination behaviours, tapes, header write splits, segmentations: if Encrypt, every Write and Close succeed the destination holds exactly the complete file), "
+        "encrypt_failure_no_writer, writer_sticky, write_error_recorded, src_fault_surfaces (a source failing after ANY prefix yields a non-EOF error and a prefix of the plaintext), reader_sticky. "
+        "Tie: destination faults at every byte offset (permanent/once, partial/none) of small files and around every structural boundary of 0–3 chunk files; source faults likewise, through age.Decrypt and stream.Reader.",
+   note=COMMON_NOTE + "Armored variants are covered by the armor model (C08) theorems and correspondence.",
+   technique="Lean 4 proof (invariant over operations for arbitrary fault behaviour) + exhaustive fault-offset correspondence"),
+})
+
 def main():
     hook = subprocess.run(['git', '-C', '/repo', 'log', '--format=%h', '--grep=^verifhook', '-n', '5'], capture_output=True, text=True).stdout.split()
     m = {
